@@ -36,6 +36,11 @@ func (m Memoizer[T, V]) Memoize(key T, fn func() (*cache.Item[V], error)) (*cach
 	}
 
 	data, err, _ := m.group.Do(string(key), func() (any, error) {
+		// Another caller's execution may have finished and cached its value
+		// between the lookup above and this point: serve that value.
+		if item, _ := m.Cache.Get(key); item != nil {
+			return item, nil
+		}
 		item, err := fn()
 		if err == nil {
 			m.Cache.SetDefault(key, item.Val())
